@@ -361,7 +361,20 @@ def run(chk):
     chk.extra["classes"] = [n for _, n, _ in table]
     chk.extra["modelled_not_proved"] = ["PDUOption small-buffer/heap union (value level only; memory observed by ASan)",
                                         "member-wise copy/move of each class abstracted to one value per layer",
-                                        "serialisation equality of copies and frame: checked on the implementation only"]
+                                        "serialisation equality of copies and frame: checked on the implementation only",
+                                        "TCPStream / IPv4Reassembler use of clone/release/inner_pdu: only the primitives "
+                                        "they call are modelled (their own state machines belong to C06/C08)"]
+    chk.extra["theorem_summary"] = {
+        "model_refines_spec": "for every program the pointer model state represents the chain-specification state",
+        "forest_inv": "parent link = owner, inner pointers owned and live, handles unique, no cycles, freed once, no fault",
+        "exactly_one_owner": "every live layer has exactly one owner (a parent layer or a user handle)",
+        "destroy_all_frees_each_once": "after `end` nothing is alive and every allocated address is in the release log once",
+        "clone_deep_equal": "clone()/copy-ctor: equal fields, fresh storage, source unchanged",
+        "copy_assign_equal": "a = b: below a equals below b (also when b is shorter), fresh storage; same class: a equals b",
+        "copy_independent + handles_disjoint": "an operation changes nothing a handle it does not name observes; handles share no layer",
+        "move_transfers": "move-ctor: the inner layers themselves change owner, source left as one moved-from layer",
+        "copyAssignAlwaysSafe_fails / copy_assign_safe_partial": "KF-C12-3: assignment from an owned layer faults; safe outside that region",
+    }
     chk.assumptions += [
         "operations the guard refuses are outside WellFormedProgram: deleting/adopting what the user does not own, a "
         "dangling reference, `a = layer owned by a`, move-assignment between two layers of one chain, "
